@@ -389,6 +389,39 @@ def check_macro_table(rep):
                                      bad[:3], [doc.get(b[0]) for b in bad[:3]])})
 
 
+def run_P(pid, P, rng, tier, rep, distinct):
+    """correspondence P: the implementation's parser vs Parse.parse run with syn's own answers (tools/pstage.py)"""
+    import pstage
+    pstage.build_parserun()
+    cases = pstage.corr_P_family(rng, tier)
+    res = pstage.corr_P([('p%d' % i, k, t) for i, (k, t) in enumerate(cases)], tag='P' + pid)
+    st = collections.Counter(r['status'] for r in res)
+    rep['families']['P:parser'] = dict(st)
+    for r in res:
+        if r['status'] == 'lexerr':
+            continue
+        rep['A_cases'] += 1
+        if nontrivial(r['text']):
+            distinct.add((r['kind'], r['text']))
+        if r['status'] in ('ok', 'ok-retok', 'parse-err-agree'):
+            continue
+        rep['A_diffs'].append({'family': 'P:parser', 'kind': r['kind'], 'text': r['text'], 'code': r.get('code'), 'status': r['status'] + ' ' + r.get('where', '')})
+        pr = (r.get('impl') or {}).get('parse') or {}
+        if r['status'] == 'impl-panic' and P['P'] in ('total', 'split'):
+            rep['witnesses'].append({'macro': gen.KIND_NAME.get(r['kind'], r['kind']), 'dsl': r['text'],
+                                     'why': 'the parser panicked instead of returning a diagnostic: %s' % json.dumps(pr)[:300]})
+        elif r['status'] in ('diff', 'class-mismatch') and len(rep['witnesses']) < 20:
+            try:
+                mr = re.sub(r'\s+', ' ', pstage.model_result(r))[-600:]
+            except Exception as e:
+                mr = 'model result unavailable: %s' % e
+            rep['witnesses'].append({'macro': gen.KIND_NAME.get(r['kind'], r['kind']), 'dsl': r['text'],
+                                     'why': 'the implementation parses this input differently from the parser model for which the property is proved (%s %s)' % (r['status'], r.get('where', '')),
+                                     'implementation': json.dumps(pr)[:800], 'model': mr})
+    for r in res[:2]:
+        rep['samples'].append({'stage': 'P', 'kind': r['kind'], 'dsl': r['text'][:300], 'status': r['status']})
+
+
 def run_property(pid, P, rng, tier, seed, escalate=False, only_B=False):
     rep = {'A_cases': 0, 'A_diffs': [], 'B_cases': 0, 'B_diffs': [], 'mm_diffs': 0, 'witnesses': [], 'families': {},
            'samples': [], 'distinct_nontrivial': 0, 'rule': '', 'escalated': escalate}
@@ -470,6 +503,8 @@ def run_property(pid, P, rng, tier, seed, escalate=False, only_B=False):
                 rep['samples'].append({'stage': 'B', 'macro': d['macro'], 'dsl': d['text'][:300], 'observed': ' '.join(d['observed'])[:300]})
     if P.get('macro_table') and not only_B:
         check_macro_table(rep)
+    if P.get('P') and not only_B:
+        run_P(pid, P, rng, tier, rep, distinct)
     if P.get('B4'):
         r4 = run_B4(pid, P, seed, tier)
         rep['B_cases'] += r4['runs']
